@@ -23,3 +23,36 @@ contract(CM + 'update_cluster_member_data_statistics', props=['C12', 'C13', 'C19
                    "implies(ascending(cluster._member_points), eqcontent(result._member_points, cluster._member_points))"),
                   "fresh(result._member_points)",
                   "unchanged(cluster, cluster._member_points, training_data)"])
+
+_STATS_PARTS = [
+    "eqcontent({new}.empirical_covariance, cov(transpose(rows_of(training_data, {old}._member_points)), model.arguments.biased_covariance))",
+    "eqcontent({new}.stacked_data_mean, colmean(rows_of(training_data, {old}._member_points)))",
+    "fresh({new}) and fresh({new}.empirical_covariance) and fresh({new}.stacked_data_mean) and fresh({new}._member_points)",
+    "eqcontent({new}._member_points, {old}._member_points)",
+    "same({new}.train_inverse, {old}.train_inverse) and same({new}.computed_covariance, {old}.computed_covariance)"]
+_STATS_OF = " and ".join(_STATS_PARTS)
+
+
+def _each(lo, hi, new, old):
+    return ["forall(%s, %s, lambda k: %s)" % (lo, hi, p.format(new=new, old=old)) for p in _STATS_PARTS]
+
+
+contract(CM + 'update_all_cluster_statistics', props=['C12', 'C13', 'C09', 'C19'],
+         params=dict(model='obj:ModelState', training_data='arr2[real]'), returns='obj:ModelState',
+         requires=["wf(model)", "len(model._point_labels) == training_data.shape[0]",
+                   # every cluster owns at least one point (the phase before -- repopulation -- guarantees >= 2 from round 2 on)
+                   "forall(0, len(model.clusters), lambda k: len(model.clusters[k]._member_points) > 0)"],
+         ghost={'kind:cluster_members': 'pdict[int]'},
+         ensures=["fresh(result)", "fresh(result.clusters)", "len(result.clusters) == len(model.clusters)",
+                  "same(result._point_labels, model._point_labels)", "same(result.arguments, model.arguments)",
+                  ("each-cluster-fitted-to-exactly-its-own-windows",
+                   "forall(0, len(model.clusters), lambda k: " + _STATS_OF.format(new='result.clusters[k]', old='model.clusters[k]') + ")"),
+                  ("state-given-is-not-altered", "unchanged(model, model.clusters, model._point_labels, training_data) and "
+                   "forall(0, len(model.clusters), lambda k: unchanged(model.clusters[k], model.clusters[k]._member_points))"),
+                  "wf(result)"],
+         loops={1: dict(inv=[], modifies=['cluster_members']),
+                2: dict(inv=["len(updated_model.clusters) == len(model.clusters)",
+                             ] + _each('0', 'cluster_id', 'updated_model.clusters[k]', 'model.clusters[k]') + [
+                             "forall(cluster_id, len(model.clusters), lambda k: same(updated_model.clusters[k], model.clusters[k]))"],
+                        lemmas_end=[p.format(new='updated_model.clusters[cluster_id]', old='model.clusters[cluster_id]') for p in _STATS_PARTS[:2]],
+                        modifies=['ref:updated_model.clusters'])})
